@@ -69,4 +69,77 @@ theorem panic_loses_own_batch_only (cfg : Cfg) (s s' : St) (t : Nat)
     split at h <;> simp_all [St.upd]
     all_goals (subst h; simp)
 
+/-! ### Wait covers prior adds
+
+FULL STATEMENT (not proven yet — kept visible, not weakened silently):
+
+    theorem wait_covers_prior_adds (cfg : Cfg) (hfix : cfg.fixed = true) (s : St) (h : Reachable cfg s)
+        (t : Nat) (th : Thread) (ht : s.thr[t]? = some th) (hpc : th.pc = .wUnbarrier) (x : Task) :
+        th.snap.count x ≤ s.finished.count x
+
+(`th.snap` = the tasks accepted before this goroutine called `Wait`; `.wUnbarrier` = `waitGroup.Wait()` has
+returned.)  The proof is by the invariant `WInv` of ProofsWait.lean (wg = number of goroutines between
+wg.Add and wg.Done; inflight = number of handed-over batches not yet decremented; per Wait caller a phase
+inequality).  PROVEN below: `WInv` holds initially; `WInv` at the two decisive steps gives the property
+(`wait_spin_covers_partial`: once Wait has seen inflight ≤ 0 every prior task is finished or held by a
+goroutine that is counted in the wait group; `wait_covers_prior_adds_partial`: once it has then seen wg = 0
+every prior task is finished).  MISSING: `WInv` is preserved by every row of the step table — the generic
+update lemma `winv_upd` and 38 of the 48 row cases are closed; the rows aAdd, fRemove, fDone, wSpin, wWait and
+bConfirm still have open side goals in the proof script (lean/scratch/winv_step_unfinished.lean.txt).
+The runtime monitor checks this clause on every harness history, and the pinned (pre-fix) order is
+shown to violate it (`pinned_wait_misses_handover`). -/
+
+theorem wait_invariant_initially (n : Nat) : WInv (init n) := winv_init n
+
+theorem wait_spin_covers_partial (s : St) (hw : WInv s) (hin : ¬ s.inflight > 0) (t : Nat) (th : Thread)
+    (ht : s.thr[t]? = some th) (hpc : th.pc = .wSpin) (x : Task) :
+    th.snap.count x ≤ s.finished.count x + eHeld x s :=
+  spin_pass s hw hin t th ht hpc x
+
+theorem wait_covers_prior_adds_partial (s : St) (hw : WInv s) (t : Nat) (th : Thread)
+    (ht : s.thr[t]? = some th) (hpc : th.pc = .wWait) (h0 : s.wg = 0) (x : Task) :
+    th.snap.count x ≤ s.finished.count x := by
+  have h2 := ((hw.ph t th ht) x).2.1 (by simp [hpc, phase])
+  have := wg_pass s hw h0 x
+  omega
+
+/-- the schedule of the defect found on the unfixed code (replayed on the real code by the harness, section 0):
+caller 0 fills a batch (1,2) whose callback is still running in the flusher (goroutine 3), adds 3; caller 1
+adds 4, takes the batch (3,4) and parks it in the commander; caller 2 calls Wait; the first callback ends. -/
+def pinnedSchedule : List (Nat × Act) :=
+  [(0, .add 1), (0, .tau), (0, .tau), (0, .tau), (0, .tau), (0, .tau), (3, .start),
+   (0, .add 2), (0, .tau), (0, .tau), (0, .tau), (0, .tau), (0, .tau), (0, .tau), (0, .tau),
+   (3, .tau), (3, .tau), (3, .tau), (3, .confirm 0), (3, .tau),
+   (0, .add 3), (0, .tau), (0, .tau), (0, .tau), (0, .tau),
+   (1, .add 4), (1, .tau), (1, .tau), (1, .tau), (1, .tau), (1, .tau), (1, .tau), (1, .tau),
+   (2, .wait), (2, .tau), (2, .tau), (2, .tau), (2, .tau), (2, .tau), (2, .tau), (2, .tau),
+   (3, .cbEnd false), (3, .tau), (3, .tau), (3, .tau), (2, .tau)]
+
+def missedAt (s : St) : Bool :=
+  match s.thr[2]? with
+  | some th => th.pc == .wUnbarrier && th.snap.contains 3 && !(s.finished.contains 3) && (s.added == [1, 2, 3, 4])
+  | none => false
+
+/-- **Witness of the defect** (pinned order: the flusher decrements `inflight` and only then enters the wait
+group; `Wait` does not look at `inflight`): there is a schedule after which `Wait` has returned while task 3,
+accepted before `Wait` was called, has not reached the callback. -/
+theorem pinned_wait_misses_handover :
+    (run { full := bulkFull 2, fixed := false } (init 4) pinnedSchedule).map missedAt = some true := by
+  decide
+
+/-- the same schedule is not executable on the fixed code: `Wait` is held back by `inflight > 0`. -/
+theorem fixed_blocks_pinned_schedule :
+    (run { full := bulkFull 2, fixed := true } (init 4) pinnedSchedule).isNone = true := by
+  decide
+
+/-- non-vacuity: the state after the defect schedule (4 goroutines: two producers, a Wait caller, a flusher;
+one batch finished, one parked in a goroutine's hands) is reachable, and the conservation equation holds
+there with a non-trivial split: task 3 is neither in the container nor finished — it is in the flusher's hands. -/
+example : ∃ s, Reachable { full := bulkFull 2, fixed := false } s ∧ s.added = [1, 2, 3, 4] ∧
+    s.finished = [1, 2] ∧ s.container = [] ∧ inHands 3 s = 1 := by
+  have hr : ∃ s, run { full := bulkFull 2, fixed := false } (init 4) pinnedSchedule = some s ∧
+      s.added = [1, 2, 3, 4] ∧ s.finished = [1, 2] ∧ s.container = [] ∧ inHands 3 s = 1 := by decide
+  obtain ⟨s, h1, h2⟩ := hr
+  exact ⟨s, reachable_run (Reachable.init 4) _ h1, h2⟩
+
 end GoZero.C11
